@@ -75,6 +75,17 @@ def check(rep, ctx):
                               message=f"the writer rejects lengths above {mx} although the {wd['prefix']['fmt']} length prefix carries up to {cap}: "
                                       f"a value of length {cap} is accepted by the reader but cannot be written back",
                               instance=construct, **W.codec_loc({"fn": wd.get("_codec", ":"), "line": wd.get("_line", 0)}))
+                if wd.get("k") == "lenpref" and (wd.get("prefix") or {}).get("k") == "varint":
+                    # compact forms: a string may be up to 32767 bytes (the limit Kafka applies to both string forms), bytes / records
+                    # up to what the unsigned varint of length + 1 carries
+                    text = str(wd.get("payload", "")).startswith("text") or (isinstance(wd.get("payload"), dict) and wd["payload"].get("k") == "text")
+                    cap = 32767 if text else (1 << 31) - 2
+                    mx = max_len_accepted(wd.get("guards"))
+                    rep.check(R_V, mx is None or mx >= cap, construct=wd.get("_codec", construct),
+                              stmt=f"length guard accepts up to {mx}; a compact {'string' if text else 'bytes/records'} field carries {cap}",
+                              message=f"the writer rejects lengths above {mx} although a compact {'string' if text else 'bytes/records'} value may be "
+                                      f"{cap} bytes long: a {'32 KiB record batch' if not text else 'long string'} the reader returns cannot be written",
+                              instance=construct + "|compact", **W.codec_loc({"fn": wd.get("_codec", ":"), "line": wd.get("_line", 0)}))
                 wd = wd.get("item") or wd.get("inner")
             # sentinel / text, through arrays
             rr, ww = r, w
